@@ -16,6 +16,7 @@ import (
 
 	"github.com/llir/llvm/ir"
 	"github.com/llir/llvm/ir/constant"
+	"github.com/llir/llvm/ir/enum"
 	"github.com/llir/llvm/ir/metadata"
 	"github.com/llir/llvm/ir/types"
 )
@@ -66,6 +67,40 @@ func c13Modules(c *config) []func() *ir.Module {
 		g.Metadata = append(g.Metadata, &metadata.Attachment{Name: "dbg", Node: md})
 		return m
 	})
+	// constructed, never printed: fields assigned after the constructors (address spaces, alignment,
+	// linkage) and after the uses were built, the entities being typed operands of instructions and constants
+	for variant := 0; variant < 3; variant++ {
+		variant := variant
+		ms = append(ms, func() *ir.Module {
+			m := ir.NewModule()
+			g := m.NewGlobal("g", types.I32)
+			h := m.NewGlobalDef("h", constant.NewInt(types.I32, 7))
+			k := m.NewGlobal("k", types.I32)
+			callee := m.NewFunc("callee", types.Void)
+			f := m.NewFunc("f", types.I32)
+			b := f.NewBlock("")
+			if variant == 1 { // the address spaces are set before the uses are built
+				g.AddrSpace, h.AddrSpace, k.AddrSpace, callee.AddrSpace = 1, 2, 4, 3
+			}
+			x := b.NewLoad(types.I32, g)
+			y := b.NewLoad(types.I32, h)
+			b.NewLoad(types.I32, k)
+			if variant != 2 {
+				b.NewStore(x, h)
+				m.NewGlobalDef("p", g)
+				m.NewGlobalDef("q", h)
+			}
+			b.NewCall(callee)
+			z := b.NewAdd(x, y)
+			b.NewRet(z)
+			if variant != 1 { // ... or afterwards
+				g.AddrSpace, h.AddrSpace, k.AddrSpace, callee.AddrSpace = 1, 2, 4, 3
+			}
+			g.Linkage, k.Linkage = enum.LinkageExternal, enum.LinkageExternal
+			h.Align = ir.Align(8)
+			return m
+		})
+	}
 	return ms
 }
 
